@@ -5,8 +5,9 @@ in between); (R2) every DiskRowset::iter in compaction and in scans receives the
 same snapshot; (R3) DELETE runs under the table lock (Table::update + delete_lock assertion).
 Does not decide: delete-vector offset arithmetic, the stale-snapshot window (C09-R1)."""
 import re
+import inline
 
-from tmpl import site, start_sites, suffix, flows_from, origin_locals, pl_fields, stream_loop, int_counters
+from tmpl import site, start_sites, suffix, flows_from, origin_locals, pl_fields, stream_loop, int_counters, local_defs
 
 SEC = 'storage::secondary::'
 COMPACT = SEC + 'compactor::Compactor::compact_table::{closure#0}'
@@ -21,6 +22,26 @@ def vec_rowset_locals(body):
             if re.match(r'std::vec::Vec<std::sync::Arc<storage::secondary::rowset::disk_rowset::DiskRowset>', t)}
 
 
+def vec_classes(b, vecs):
+    """one collection may have several names: `let v = helper(..)` moves the helper's vector into the caller's (whole-value moves).
+    Returns (find, same): representative of a local, and representative -> all its names."""
+    cls = {v: v for v in vecs}
+
+    def find(v):
+        while cls[v] != v:
+            v = cls[v]
+        return v
+    for v in sorted(vecs):
+        for _, kind, rv in local_defs(b, v):
+            if kind == 'assign' and rv.get('rv') == 'use' and rv['op']['k'] != 'const' and not rv['op']['pl']['p'] \
+                    and rv['op']['pl']['l'] in vecs and find(v) != find(rv['op']['pl']['l']):
+                cls[find(v)] = find(rv['op']['pl']['l'])
+    same = {}
+    for v in vecs:
+        same.setdefault(find(v), set()).add(v)
+    return find, same
+
+
 def run(ctx):
     prog = ctx.prog('all' if ctx.thorough else 'lib')
     ctx.extra['facts_key'] = prog.key
@@ -28,7 +49,7 @@ def run(ctx):
                        'deleted are one local collection; the dvs argument of every row-set iterator flows from '
                        'Snapshot::get_dvs_of; DELETE opens its transaction with the deletion lock.')
     ctx.trusted += ['rustc MIR facts', 'flow through iterator adaptors is followed via call arguments (over-approximation)']
-    b = prog.body(COMPACT)
+    b = prog.inlined(COMPACT)
     R1 = 'C07-R1'
     ctx.rule(R1, 'compact_table: the collection iterated to build the input iterators and the collection mapped to '
                  'EpochOp::DeleteRowSet are the same local, with no mutation after the first read')
@@ -41,8 +62,8 @@ def run(ctx):
             read_src |= origin_locals(b, c.args[0]['pl']['l']) & vecs
         # closure that builds DeleteRowSet -> the map call that consumes it
         del_src = set()
-        del_closures = [ch.name for ch in prog.group(b.root) if any(True for _ in ch.aggregates(EPOCHOP, 'DeleteRowSet'))]
-        inline = [bb for bb, _ in b.aggregates(EPOCHOP, 'DeleteRowSet')]
+        del_closures = [ch.name for ch in inline.group(prog, b) if any(True for _ in ch.aggregates(EPOCHOP, 'DeleteRowSet'))]
+        built_inline = [bb for bb, _ in b.aggregates(EPOCHOP, 'DeleteRowSet')]
         for bb, child in b.closure_sites():
             if child in del_closures:
                 # local holding the closure
@@ -55,15 +76,18 @@ def run(ctx):
                                 for a in c.args:
                                     if a['k'] != 'const' and a['pl']['l'] != cl:
                                         del_src |= origin_locals(b, a['pl']['l']) & vecs
-        if inline:
+        if built_inline:
             ctx.note('DeleteRowSet is built inline; source determined by enclosing loop iterator')
-            for bb in inline:
+            for bb in built_inline:
                 for st in b.blocks[bb]['stmts']:
                     rv = st.get('rv', {})
                     if rv.get('rv') == 'agg' and rv.get('variant') == 'DeleteRowSet':
                         for o in rv['ops']:
                             if o['k'] != 'const':
                                 del_src |= origin_locals(b, o['pl']['l'], depth=20) & vecs
+        find, same = vec_classes(b, vecs)
+        read_src = {find(v) for v in read_src}
+        del_src = {find(v) for v in del_src}
         ok = bool(read_src) and read_src == del_src and len(read_src) == 1
         ctx.ob(R1, 'compact_table·read-set==deleted-set', ok,
                f'row-set collections read by DiskRowset::iter: {names(b, read_src)}; mapped to DeleteRowSet: {names(b, del_src)}',
@@ -72,7 +96,7 @@ def run(ctx):
         if ctx.anchor(R1, 'compact_table:DiskRowset::iter', iters) and read_src:
             S = next(iter(read_src))
             muts = [bb for bb, st in b.stmts() if st.get('rv', {}).get('rv') == 'ref' and st['rv'].get('mut')
-                    and st['rv']['pl']['l'] == S and not st['rv']['pl']['p']]
+                    and st['rv']['pl']['l'] in same[S] and not st['rv']['pl']['p']]
             first_reads = [c.bb for c in iters]
             late = [m for m in muts if any(m in b.reachable_from([r]) for r in first_reads)]
             ctx.ob(R1, 'compact_table·no-mutation-after-read', not late,
@@ -85,7 +109,7 @@ def run(ctx):
             S = next(iter(read_src))
             gd = [c for c in b.calls if (c.fn or '').endswith('Snapshot::get_dvs_of')]
             if ctx.anchor(R1, 'compact_table:Snapshot::get_dvs_of', gd):
-                bad = [c for c in gd if not (len(c.args) > 2 and c.args[2]['k'] != 'const' and S in origin_locals(b, c.args[2]['pl']['l'], depth=20))]
+                bad = [c for c in gd if not (len(c.args) > 2 and c.args[2]['k'] != 'const' and same[S] & origin_locals(b, c.args[2]['pl']['l'], depth=20))]
                 ctx.ob(R1, 'compact_table·dvs-of-the-read-set', not bad,
                        f'{len(gd)} get_dvs_of call(s); row-set id not taken from `{b.var_name(S)}`: {[site(b, c.bb) for c in bad]}',
                        [site(b, c.bb) for c in (bad or gd)],
@@ -97,7 +121,7 @@ def run(ctx):
     ctx.rule(R2, 'every DiskRowset::iter call (compaction, scan) passes as `dvs` a value that flows from Snapshot::get_dvs_of')
     n = 0
     for name in (COMPACT, SCAN):
-        bd = prog.body(name)
+        bd = prog.inlined(name)
         if not ctx.anchor(R2, name, bd is not None):
             continue
         ctx.functions_analysed.add(bd.name)
@@ -249,7 +273,7 @@ def compaction_touches_only_what_it_merged(ctx, prog, rid):
     ctx.rule(rid, 'under its table lock the compactor may only retire what it merged: every Snapshot::get_dvs_of in compact_table takes '
                   'its row-set id from the collection that feeds DiskRowset::iter (the merge inputs); retiring the delete vectors of a '
                   'row-set that stays resurrects the rows an acknowledged DELETE removed from it')
-    b = prog.body(COMPACT)
+    b = prog.inlined(COMPACT)
     if not ctx.anchor(rid, COMPACT, b is not None):
         return
     ctx.functions_analysed.add(b.name)
@@ -258,12 +282,14 @@ def compaction_touches_only_what_it_merged(ctx, prog, rid):
     read_src = set()
     for c in iters:
         read_src |= origin_locals(b, c.args[0]['pl']['l']) & vecs
+    find, same = vec_classes(b, vecs)
+    read_src = {find(v) for v in read_src}
     if not ctx.anchor(rid, 'compact_table: merge inputs', len(read_src) == 1):
         return
     S = next(iter(read_src))
     gd = [c for c in b.calls if (c.fn or '').endswith('Snapshot::get_dvs_of')]
     if ctx.anchor(rid, 'compact_table:Snapshot::get_dvs_of', gd):
-        bad = [c for c in gd if not (len(c.args) > 2 and c.args[2]['k'] != 'const' and S in origin_locals(b, c.args[2]['pl']['l'], depth=20))]
+        bad = [c for c in gd if not (len(c.args) > 2 and c.args[2]['k'] != 'const' and same[S] & origin_locals(b, c.args[2]['pl']['l'], depth=20))]
         ctx.ob(rid, 'compact_table·dvs-of-the-merged-set', not bad,
                f'{len(gd)} get_dvs_of call(s); row-set id not taken from `{b.var_name(S)}`: {[site(b, c.bb) for c in bad]}',
                [site(b, c.bb) for c in (bad or gd)],
@@ -277,7 +303,7 @@ def compaction_merges_what_it_retires(ctx, prog, rid):
                   'DiskRowset::iter has been asked for a row-set, the only ways on are the push of its iterator into the merge inputs or an '
                   'error exit of compact_table. A row-set that is skipped (unreadable, failed checksum, "nothing visible") and retired all the '
                   'same loses its rows for good - silently, where a scan would have reported the damage')
-    b = prog.body(COMPACT)
+    b = prog.inlined(COMPACT)
     if not ctx.anchor(rid, COMPACT, b is not None):
         return
     ctx.functions_analysed.add(b.name)
@@ -314,7 +340,7 @@ def compaction_tombstones_before_commit(ctx, prog, rid):
                   'dominated by the loop that turns Snapshot::get_dvs_of of the retired row-sets into EpochOp::DeleteDV. A second, shorter way '
                   'to the commit (e.g. "nothing survived the merge: just drop the old row-sets") leaves AddDV records in the log whose row-set '
                   'is gone: replay unwraps their owner after a DROP TABLE, and a re-issued row-set id inherits the orphan delete vector')
-    b = prog.body(COMPACT)
+    b = prog.inlined(COMPACT)
     if not ctx.anchor(rid, COMPACT, b is not None):
         return
     ctx.functions_analysed.add(b.name)
